@@ -40,6 +40,7 @@ class ItemSpec:
         self.blocks = []      # (kind, arg, [lines], tline)
         self.subs = []        # (frm, to, which, tline)
         self.indent = ''
+        self.import_from = None
 
 
 class GenLine:
@@ -59,6 +60,15 @@ def parse_template(text):
     while i < n:
         ln = lines[i]
         d = DIRECTIVE.match(ln)
+        if d and d.group(1) == 'import':
+            u, _, rest = d.group(2).partition('::')
+            crate, _, path = rest.partition('::')
+            spec = ItemSpec(crate.strip(), path.strip(), i + 1)
+            spec.indent = re.match(r'\s*', ln).group(0)
+            spec.import_from = u.strip()
+            out.append(('import', spec))
+            i += 1
+            continue
         if not d or d.group(1) not in ('item', 'item!'):
             if d and d.group(1) not in ('item', 'item!'):
                 raise ExtractError('template line %d: directive //@%s outside //@item' % (i + 1, d.group(1)))
@@ -422,7 +432,45 @@ class Unit:
         return None, None
 
 
-def build_unit(name, template_text, sources):
+def build_import(src, spec, log, read_template):
+    """`//@import unit :: crate :: path`: the callee as an external_body declaration carrying exactly the contract
+    that unit `unit` proves for it (same spec text, taken from that unit's template)."""
+    other = parse_template(read_template(spec.import_from))
+    found = None
+    for p in other:
+        if p[0] == 'item' and p[1].crate == spec.crate and norm(p[1].path) == norm(spec.path):
+            found = p[1]
+    if found is None:
+        raise ExtractError('import: unit %s proves no contract for %s :: %s' % (spec.import_from, spec.crate, spec.path))
+    it = src.resolve(spec.path)
+    if it.kind != 'fn':
+        raise ExtractError('import of a non-fn item: %s' % spec.path)
+    text = src.item_text(it)
+    text, _ = rewrite.r0_attrs(text)
+    text, _ = rewrite.r0_vis(text)
+    if 'R5' in found.rules:
+        text = text.replace('mut self', 'self', 1)
+    m = mask(text)
+    he = _header_end(m)
+    header = text[:he] if he is not None else text.rstrip().rstrip(';')
+    sig = [b for b in found.blocks if b[0] == 'sig']
+    specs = [b for b in found.blocks if b[0] == 'spec']
+    if sig:
+        header = '\n'.join(sig[0][2]) + '\n'
+    elif specs:
+        header = _name_return(header, found.ret)
+    # mutable bindings in parameter position are irrelevant for a declaration
+    header = re.sub(r'\(\s*mut\s+([a-z_][A-Za-z0-9_]*)\s*:', r'(\1:', header)
+    header = re.sub(r',\s*mut\s+([a-z_][A-Za-z0-9_]*)\s*:', r', \1:', header)
+    lines = ['#[verifier::external_body]'] + header.rstrip().split('\n')
+    for b in specs:
+        lines += b[2]
+    lines.append('{ unimplemented!() }')
+    log.setdefault('imports', []).append({'from_unit': spec.import_from, 'item': '%s :: %s' % (spec.crate, spec.path)})
+    return [GenLine(spec.indent + l if l.strip() else l, ('tmpl', spec.tline)) for l in lines]
+
+
+def build_unit(name, template_text, sources, read_template=None):
     """sources: {crate: Source}"""
     log = {'rewrites': [], 'subs': [], 'dropped': 'doc comments, attributes (#[derive], #[inline], ...), '
            'items not named by the unit'}
@@ -433,6 +481,11 @@ def build_unit(name, template_text, sources):
     for p in parts:
         if p[0] == 'line':
             lines.append(GenLine(p[1], ('tmpl', p[2])))
+        elif p[0] == 'import':
+            spec = p[1]
+            if spec.crate not in sources:
+                raise ExtractError('unknown crate %s (template line %d)' % (spec.crate, spec.tline))
+            lines.extend(build_import(sources[spec.crate], spec, log, read_template))
         else:
             spec = p[1]
             if spec.crate not in sources:
@@ -443,7 +496,10 @@ def build_unit(name, template_text, sources):
             items.append((spec, it, first, len(lines)))
             idx += 1
     # declarations generated by rewrite rules (R9) go right before the end of the verus! block
-    decls = log.get('decls', [])
+    have = '\n'.join(l.text for l in lines)
+    decls = [d for d in log.get('decls', [])
+             if re.search(r'spec fn (vxs_f32_[A-Za-z0-9_]+)\(', d) and
+             ('spec fn ' + re.search(r'spec fn (vxs_f32_[A-Za-z0-9_]+)\(', d).group(1) + '(') not in have]
     if decls:
         k = len(lines) - 1
         while k >= 0 and not lines[k].text.startswith('} // verus!'):
